@@ -24,16 +24,16 @@ TRUST = ["C10 statement oracle: delayed = zeros(d_c) ++ undelayed ++ zeros(M - d
 def generate(rng, tier):
     n = 110 if tier == "quick" else 3000
     for _ci in range(n):
-        yield gen_case(rng)
+        yield gen_case(rng, allow_big=_ci < 160)          # the very large cases are bounded in number (memory), also in the thorough tier
 
 
-def gen_case(rng):
+def gen_case(rng, allow_big=True):
     regs = Regs()
     SR = rng.choice([100, 100, 1000.0, 1e4, 25, 2.4e9, 256e9, 4e12])
     long = rng.random() < 0.2
     N = 2400 if long else rng.randint(6, 40)
     nch = rng.randint(1, 4)
-    big = rng.random() < 0.1 and not long            # delays of ~2.5e5 samples that differ by a few samples
+    big = allow_big and rng.random() < 0.1 and not long            # delays of ~2.5e5 samples that differ by a few samples
     if big:
         nch = rng.randint(2, 3)
     chans = rng.sample(CHAN_POOL, nch)
@@ -48,7 +48,7 @@ def gen_case(rng):
         ops.append(("SSetSR", s, SR * rng.choice([2, 0.5])))
     delays = {}
     zero_all = rng.random() < 0.12
-    big_base = rng.choice([250000, 400000])
+    big_base = 250000
     for c in chans:
         d = 0 if zero_all else delay_value(rng, SR)
         if big:
